@@ -1,6 +1,7 @@
 from typing import Coroutine, Any, TypeVar, Awaitable, AsyncIterator, Optional, List
 
 from .._primitives.context import Scope
+from .._primitives.task import TaskClosed
 from .._primitives.timing import Instant
 from .._basics.streams import Queue
 
@@ -79,4 +80,14 @@ async def collect(*activities: Coroutine[Any, Any, RT]) -> List[RT]:
     """
     async with Scope() as scope:
         tasks = [scope.do(activity) for activity in activities]
-    return [await task for task in tasks]
+    try:
+        return [await task for task in tasks]
+    except TaskClosed:
+        # An activity failed in a way that the scope does not report, such as with
+        # the TaskCancelled of a task it awaits, and the others were closed for it:
+        # raise that failure instead of the closing of a bystander.
+        for task in tasks:
+            failure = task.__exception__
+            if failure is not None and not isinstance(failure, TaskClosed):
+                raise failure
+        raise
